@@ -690,6 +690,24 @@ def make_module(I):
         yield st, (ops.z_abs(x) if is_z3(x) else abs(x))
 
     N["abs"] = Builtin("numpy.abs", elementwise(_abs))
+
+    def _rint(I, st, x):
+        """np.rint: round half to even, result stays a float (A1: a real with an integer value)"""
+        x = as_arith(x)
+        if isinstance(x, bool) or not is_number(x):
+            raise Unsupported("np.rint of %r" % (x,))
+        if is_z3(x):
+            if z3.is_int(x):
+                yield st, z3.ToReal(x)
+            elif z3.is_app_of(x, z3.Z3_OP_TO_REAL):
+                yield st, x
+            else:
+                I.trust("round", "A1: round(x) is round-half-to-even over the reals")
+                yield st, z3.ToReal(ops.z_round_half_even(x))
+        else:
+            yield st, Fraction(round(Fraction(x)))
+
+    N["rint"] = Builtin("numpy.rint", elementwise(_rint))
     N["absolute"] = N["abs"]
     N["ndarray"] = BuiltinClass("ndarray")
     reg("dtype", lambda I, st, d: DtypeVal(as_dtype_kind(d)))
